@@ -119,7 +119,7 @@ CLAIMS = {
          BND_NOTE % 'C04' + LX, 'Lean equivariance proofs for algebraic measures; pyvc corollaries over proved contracts for seven distance measures; exhaustive small-scope equivariance check (bounded) for the rest', '5/C04'),
  'C14': ('exploration',
          'Partly deductive: Lean proofs over the extracted real source that the given-partition values of modularity_und, modularity_dir (label_invariant under injective g; depends on the partition only) and '
-         'modularity_und_sign (5 qtypes, relative to the rank contract of np.unique and free node degrees) are invariant under renaming of labels — 9 theorems. participation_coef (degree undirected/out) is proved (pyvc+z3) to return 1 - sum_m modsum(W, ci, x, m)^2 / strength(x)^2 (0 for isolated nodes) for the rank labels produced by np.unique, an expression that depends on the labels only through the partition (Lean: msq_relabel). participation_coef_sign, '
+         'modularity_und_sign (5 qtypes, relative to the rank contract of np.unique and free node degrees) are invariant under renaming of labels — 9 theorems. participation_coef (degree undirected/out) is proved (pyvc+z3) to return 1 - sum_m modsum(W, ci, x, m)^2 / strength(x)^2 (0 for isolated nodes) for the rank labels produced by np.unique, an expression that depends on the labels only through the partition (Lean: msq_relabel); the statement of the property for this routine -- two label vectors that induce the same partition, contiguous or not, give the same coefficients -- is discharged as a corollary over that contract (contracts/relabelling.py). participation_coef_sign, '
          'module_degree_zscore, diversity_coef_sign, partition_distance (symmetry, identity, range), agreement, ci2ls/ls2ci are BOUNDED only (all partitions n<=5 x relabellings incl. zero-based, '
          'non-contiguous, negative). gateway_coef_sign is a known finding.',
          BND_NOTE % 'C14' + LX, 'Lean label-invariance proofs for the modularity values; relabelling on all partitions of small node sets (bounded) for the other consumers', '5/C14'),
